@@ -32,6 +32,7 @@ type Engine struct {
 	globals        map[*Exec][]string
 	repoDir        string
 	envKinds       map[string]int
+	nonNilCache    map[*ssa.Global]bool
 }
 
 func loadEngine(repo string) (*Engine, error) {
@@ -55,7 +56,7 @@ func loadEngine(repo string) (*Engine, error) {
 	eng := &Engine{prog: prog, pkgs: pkgs, spkgs: spkgs, fnByKey: map[string]*ssa.Function{},
 		modulePath: "github.com/elastic/go-libaudit/v2", tids: map[string]int{}, tidTypes: map[int]types.Type{},
 		loopCache: map[*ssa.Function]*loopInfo{}, simpleCache: map[*ssa.Alloc]bool{}, hidden: map[ssa.Instruction]*ssa.Alloc{},
-		inlineOverride: map[string]bool{}, globals: map[*Exec][]string{}, repoDir: repo}
+		nonNilCache: map[*ssa.Global]bool{}, inlineOverride: map[string]bool{}, globals: map[*Exec][]string{}, repoDir: repo}
 	for f := range ssautil.AllFunctions(prog) {
 		if eng.isModuleFn(f) {
 			eng.fnByKey[shortFn(f)] = f
@@ -64,7 +65,7 @@ func loadEngine(repo string) (*Engine, error) {
 	return eng, nil
 }
 
-func (eng *Engine) globalNames(ex *Exec) []string  { return eng.globals[ex] }
+func (eng *Engine) globalNames(ex *Exec) []string    { return eng.globals[ex] }
 func (eng *Engine) addGlobalName(ex *Exec, n string) { eng.globals[ex] = append(eng.globals[ex], n) }
 
 // simpleAlloc: a local whose address never escapes can be kept as a cell.
@@ -174,4 +175,56 @@ func (eng *Engine) isModuleFn(f *ssa.Function) bool {
 		return false
 	}
 	return strings.HasPrefix(f.Pkg.Pkg.Path(), eng.modulePath)
+}
+
+// nonNilGlobal: package-level error / pointer variables that are assigned a
+// non-nil value in their package initialiser and nowhere else in the module.
+func (eng *Engine) nonNilGlobal(g *ssa.Global) bool {
+	if r, ok := eng.nonNilCache[g]; ok {
+		return r
+	}
+	r := false
+	elem := g.Type().Underlying().(*types.Pointer).Elem()
+	_, isIface := elem.Underlying().(*types.Interface)
+	_, isPtr := elem.Underlying().(*types.Pointer)
+	_, isMap := elem.Underlying().(*types.Map)
+	if isIface || isPtr || isMap {
+		if !eng.isModulePkg(g.Pkg) {
+			// exported sentinels of other packages (io.ErrUnexpectedEOF, strconv.ErrSyntax, ...)
+			r = isIface && types.Identical(elem, eng.errorType())
+		} else {
+			stores, good := 0, 0
+			for _, f := range eng.moduleFunctions() {
+				for _, b := range f.Blocks {
+					for _, ins := range b.Instrs {
+						st, ok := ins.(*ssa.Store)
+						if !ok || st.Addr != g {
+							continue
+						}
+						stores++
+						if f.Name() == "init" || strings.HasPrefix(f.Name(), "init#") {
+							switch v := st.Val.(type) {
+							case *ssa.Call:
+								if c := v.Call.StaticCallee(); c != nil {
+									n := c.String()
+									if n == "errors.New" || n == "fmt.Errorf" || n == "regexp.MustCompile" {
+										good++
+									}
+								}
+							case *ssa.MakeMap, *ssa.Alloc, *ssa.MakeInterface:
+								good++
+							}
+						}
+					}
+				}
+			}
+			r = stores > 0 && stores == good
+		}
+	}
+	eng.nonNilCache[g] = r
+	return r
+}
+
+func (eng *Engine) isModulePkg(p *ssa.Package) bool {
+	return p != nil && strings.HasPrefix(p.Pkg.Path(), eng.modulePath)
 }
